@@ -47,7 +47,19 @@ type c02Alt struct {
 type c02Err struct {
 	Code int `json:"code"` // 0 = a plain Go error
 	Msg  int `json:"msg"`
+	// Wrap > 0: an ordinary Go error (no status of its own, the model reads it as a plain error with message Msg) that
+	// WRAPS the error described by Code (an errors.Error, or a plain error when Code = 0):
+	// 1 = fmt.Errorf("m<Msg>: %w", inner), 2 = errors.Join(plain m<Msg>, inner), 3 = a type with an Unwrap method
+	Wrap int `json:"wrap,omitempty"`
 }
+
+type c02WrapErr struct {
+	msg   string
+	inner error
+}
+
+func (e *c02WrapErr) Error() string { return e.msg }
+func (e *c02WrapErr) Unwrap() error { return e.inner }
 
 type c02Out struct {
 	Name int     `json:"name"`
@@ -184,7 +196,9 @@ func (c02) Rule() string {
 		"placement (operation/global/operation over global) and parameter validity cycle with the index. Random stream: 1-4 alternatives x 0-3 of 4 schemes, " +
 		"scopes, unregistered/undefined schemes, raw authenticator answers (error+principal, not-applicable+error), principal-specific authorizers, natural map order. " +
 		"Every case also carries the method the operation is declared under (POST GET OPTIONS PUT DELETE HEAD PATCH) and 0-3 extra request headers " +
-		"(CORS preflight, method override, forwarding, upgrade); one structure in seven of the cycling dimension names a look-alike scheme (S0 / trailing blank) " +
+		"(CORS preflight, method override, forwarding, upgrade; in two picks of five an Accept header, acceptable to the operation or not - image/png, text/csv;q=0.5, application/xml ... - " +
+		"which must not change a refusal, while a request let through is answered 406 before binding); the authorizer denies with a plain error, an errors.Error or an ordinary error that WRAPS " +
+		"an errors.Error (percent-w, errors.Join, a type with Unwrap; inner codes 418 403 401 404 500 402 or a plain inner error), which carries no status itself, and schemes reject with such errors too; one structure in seven of the cycling dimension names a look-alike scheme (S0 / trailing blank) " +
 		"with only one of the pair registered. One generated case in nine is a HISTORY: 2-4 operations (same path, different methods) on one api instance whose six schemes " +
 		"are checked by security.BearerAuth/BearerAuthCtx/APIKeyAuth/APIKeyAuthCtx/BasicAuth/BasicAuthCtx over a grants table (bearer callbacks check the required scopes), " +
 		"2-5 requests mostly presenting the same credential to operations requiring different scopes, each also served by a fresh instance. " +
@@ -219,6 +233,9 @@ func init() {
 
 var c02Kinds4 = []string{"na", "acc", "nil", "rej"}
 
+// status codes of the API errors that get wrapped into ordinary errors (0 = a plain error is wrapped)
+var c02InnerCodes = []int{418, 403, 401, 404, 500, 402, 0}
+
 func c02ErrFor(k, salt int) *c02Err {
 	codes := []int{401, 403, 0, 400, 401}
 	return &c02Err{Code: codes[(k+salt)%len(codes)], Msg: 11 + k}
@@ -242,36 +259,48 @@ func c02Secondary(in *c02In, sidx, idx int) {
 	g /= 3
 	in.BindOK = h%4 != 0
 	h /= 4
-	azKind := h % 4
+	azKind := h % 6
 	if g%5 == 0 {
 		azKind = -1
 	} else {
 		azKind++
 	}
 	g /= 5
-	h /= 4
+	h /= 6
 	switch azKind {
 	case -1:
 	case 1:
 		in.HasAz = true
 	case 2:
 		in.HasAz = true
-		in.Deny = []c02Deny{{P: nil, Err: c02Err{0, 31}}}
+		in.Deny = []c02Deny{{P: nil, Err: c02Err{Code: 0, Msg: 31}}}
 		for p := 1; p <= 4; p++ {
 			pp := p
-			in.Deny = append(in.Deny, c02Deny{P: &pp, Err: c02Err{0, 31}})
+			in.Deny = append(in.Deny, c02Deny{P: &pp, Err: c02Err{Code: 0, Msg: 31}})
 		}
 	case 3:
 		in.HasAz = true
-		in.Deny = []c02Deny{{P: nil, Err: c02Err{418, 32}}}
+		in.Deny = []c02Deny{{P: nil, Err: c02Err{Code: 418, Msg: 32}}}
 		for p := 1; p <= 4; p++ {
 			pp := p
-			in.Deny = append(in.Deny, c02Deny{P: &pp, Err: c02Err{418, 32}})
+			in.Deny = append(in.Deny, c02Deny{P: &pp, Err: c02Err{Code: 418, Msg: 32}})
 		}
 	case 4:
 		in.HasAz = true
 		pp := 1 + h%3
-		in.Deny = []c02Deny{{P: &pp, Err: c02Err{403, 33}}}
+		in.Deny = []c02Deny{{P: &pp, Err: c02Err{Code: 403, Msg: 33}}}
+	case 5: // everybody is denied with an ordinary error that wraps an API error
+		in.HasAz = true
+		e := c02Err{Code: c02InnerCodes[(h/3)%len(c02InnerCodes)], Msg: 34, Wrap: 1 + h%3}
+		in.Deny = []c02Deny{{P: nil, Err: e}}
+		for p := 1; p <= 4; p++ {
+			pp := p
+			in.Deny = append(in.Deny, c02Deny{P: &pp, Err: e})
+		}
+	case 6: // one principal is denied with a wrapped API error
+		in.HasAz = true
+		pp := 1 + h%3
+		in.Deny = []c02Deny{{P: &pp, Err: c02Err{Code: c02InnerCodes[(h/9)%len(c02InnerCodes)], Msg: 35, Wrap: 1 + (h/3)%3}}}
 	}
 	twin := 0
 	if g%7 == 0 {
@@ -408,6 +437,9 @@ func (c02) Gen(r *rand.Rand, tier string, i int) any {
 			o.P = 1 + r.Intn(4)
 			o.Err = c02ErrFor(k, r.Intn(5))
 		}
+		if o.Err != nil && o.Kind != "naerr" && r.Intn(6) == 0 {
+			o.Err.Wrap = 1 + r.Intn(3) // the scheme rejects with an ordinary error wrapping an API error: no status of its own
+		}
 		in.Outs = append(in.Outs, o)
 	}
 	for k := 0; k < 4; k++ {
@@ -427,7 +459,10 @@ func (c02) Gen(r *rand.Rand, tier string, i int) any {
 		codes := []int{0, 403, 418, 401}
 		for p := 0; p <= 4; p++ {
 			if r.Intn(3) == 0 {
-				d := c02Deny{Err: c02Err{codes[r.Intn(len(codes))], 31 + p}}
+				d := c02Deny{Err: c02Err{Code: codes[r.Intn(len(codes))], Msg: 31 + p}}
+				if r.Intn(3) == 0 {
+					d.Err = c02Err{Code: c02InnerCodes[r.Intn(len(c02InnerCodes))], Msg: 31 + p, Wrap: 1 + r.Intn(3)}
+				}
 				if p > 0 {
 					pp := p
 					d.P = &pp
@@ -525,13 +560,29 @@ func c02MkErr(e *c02Err) error {
 	if e == nil {
 		return nil
 	}
+	if e.Wrap > 0 {
+		var inner error = stderrors.New("w" + strconv.Itoa(e.Msg))
+		if e.Code != 0 {
+			inner = errors.New(int32(e.Code), "w%d", e.Msg)
+		}
+		switch e.Wrap {
+		case 1:
+			return fmt.Errorf("m%d: %w", e.Msg, inner)
+		case 2:
+			return stderrors.Join(stderrors.New("m"+strconv.Itoa(e.Msg)), inner)
+		default:
+			return &c02WrapErr{msg: "m" + strconv.Itoa(e.Msg), inner: inner}
+		}
+	}
 	if e.Code == 0 {
 		return stderrors.New("m" + strconv.Itoa(e.Msg))
 	}
 	return errors.New(int32(e.Code), "m%d", e.Msg)
 }
 
-var c02MsgRe = regexp.MustCompile(`^m(\d+)$`)
+// the message id of an error text: m<id>, or the text of a wrapping error m<id>: w<id> / m<id>\nw<id> (the text of
+// the wrapped error w<id> alone has no id: it reads as 0)
+var c02MsgRe = regexp.MustCompile(`^m(\d+)(?:(?:: |\n)w\d+)?$`)
 
 func c02MsgID(s string) int {
 	if m := c02MsgRe.FindStringSubmatch(s); m != nil {
@@ -886,7 +937,8 @@ func c02OptNat(p *int) string {
 }
 
 func c02CoqErr(e c02Err) string {
-	if e.Code == 0 {
+	// an error that merely wraps an API error carries no status itself
+	if e.Code == 0 || e.Wrap > 0 {
 		return fmt.Sprintf("(EPlain %d)", e.Msg)
 	}
 	return fmt.Sprintf("(EStatus %d %d)", e.Code, e.Msg)
@@ -982,7 +1034,7 @@ func (c02) Coq(inAny any, obsAny any) string {
 	default:
 		bres = "AuthPanic"
 	}
-	return fmt.Sprintf("CSec %s %s %s %s %s %s %s %s %s %s %s %s %s", alts, outs, az, coqBool(in.BindOK), coqBool(c02Method(in) == "HEAD"),
+	return fmt.Sprintf("CSec %s %s %s %s %s %s %s %s %s %s %s %s %s %s", alts, outs, az, coqBool(in.BindOK), coqBool(c02FmtOK(in.Hdrs)), coqBool(c02Method(in) == "HEAD"),
 		c02CoqTrace(obs.DTr), coqBool(obs.DApplies), c02OptNat(obs.DUsr), c02CoqOptErr(obs.DErr), droute,
 		c02CoqTrace(obs.BTr), bres, c02CoqTrace(obs.ATr))
 }
@@ -1023,6 +1075,11 @@ func (c02) Category(inAny any, obsAny any) (string, bool) {
 		if len(in.Deny) > 0 {
 			az = "az-deny"
 		}
+		for _, d := range in.Deny {
+			if d.Err.Wrap > 0 {
+				az = "az-deny-wrapped"
+			}
+		}
 	}
 	an := ""
 	if anon {
@@ -1053,6 +1110,16 @@ func (c02) Category(inAny any, obsAny any) (string, bool) {
 	}
 	if hd == "" && len(in.Hdrs) > 0 {
 		hd = "+hdrs"
+	}
+	for _, h := range in.Hdrs {
+		if h.N == "Accept" {
+			if c02FmtOK(in.Hdrs) {
+				hd += "+accept"
+			} else {
+				hd += "+accept-none"
+			}
+			break
+		}
 	}
 	cat := fmt.Sprintf("%dalt%s/%s/%s%s/%s/%s/%s%s", len(in.Alts), an, in.Where, c02Method(in), hd, order, az, verdict, extra)
 	return cat, calls >= 1 && (nschemes >= 2 || len(in.Alts) >= 2)
@@ -1421,7 +1488,7 @@ func c02CoqHist(h *c02Hist, obs c02Obs) string {
 		}
 		creds := coqList(c02HCreds(c), func(p [2]int) string { return fmt.Sprintf("(%d, %d)", p[0], p[1]) })
 		head := c.Op >= 0 && c.Op < len(h.Ops) && h.Ops[c.Op].Method == "HEAD"
-		return fmt.Sprintf("mk_hcall %d %s %s %s %s %s %s %s %s", c.Op, creds, coqBool(c.BindOK), coqBool(c.Via == "authorize"), coqBool(head),
+		return fmt.Sprintf("mk_hcall %d %s %s %s %s %s %s %s %s %s", c.Op, creds, coqBool(c.BindOK), coqBool(c02FmtOK(c.Hdrs)), coqBool(c.Via == "authorize"), coqBool(head),
 			c02CoqTrace(o.Tr), c02CoqAuthz(o.Kind, o.Usr, o.Sc, o.Err), c02CoqTrace(o.FTr), c02CoqAuthz(o.FKind, o.FUsr, o.FSc, o.FErr))
 	})
 	return fmt.Sprintf("CHist %s [0; 1] %s %s %s", ops, grants, c02CoqAz(h.HasAz, h.Deny), calls)
@@ -1446,7 +1513,52 @@ var c02HdrPool = []c02Hdr{
 	{"Cookie", "session=1"},
 }
 
-// c02HdrsFor picks 0-3 extra headers from a number (the first pool entries, the CORS preflight ones, most often).
+// Accept headers, with whether they admit application/json (all the operations of the generated documents produce,
+// and the API's default is). An unacceptable one must not change how a request is REFUSED; a request that is let
+// through is answered 406 by the validation before parameter binding.
+var c02AcceptPool = []struct {
+	V  string
+	OK bool
+}{
+	{"image/png", false},
+	{"application/json", true},
+	{"text/csv;q=0.5", false},
+	{"*/*", true},
+	{"application/xml", false},
+	{"text/html, application/xhtml+xml;q=0.9", false},
+	{"text/html, application/json;q=0.8", true},
+	{"text/plain;q=0.9, image/*;q=0.5", false},
+	{"application/*", true},
+}
+
+// c02FmtOK says whether some response format is acceptable to the request: no Accept header, or one that admits
+// application/json. Values outside the pool (replay files) are put to the library's own negotiation.
+func c02FmtOK(hdrs []c02Hdr) bool {
+	var vals []string
+	for _, h := range hdrs {
+		if http.CanonicalHeaderKey(h.N) == "Accept" {
+			vals = append(vals, h.V)
+		}
+	}
+	if len(vals) == 0 {
+		return true
+	}
+	if len(vals) == 1 {
+		for _, a := range c02AcceptPool {
+			if a.V == vals[0] {
+				return a.OK
+			}
+		}
+	}
+	req := httptest.NewRequest("GET", "/x", nil)
+	for _, v := range vals {
+		req.Header.Add("Accept", v)
+	}
+	return middleware.NegotiateContentType(req, []string{"application/json"}, "") != ""
+}
+
+// c02HdrsFor picks 0-3 extra headers from a number: CORS preflight headers (the first pool entries) most often,
+// at most one Accept header (acceptable or not to the operation), the other pool entries.
 func c02HdrsFor(h int) []c02Hdr {
 	if h < 0 {
 		h = -h
@@ -1458,13 +1570,22 @@ func c02HdrsFor(h int) []c02Hdr {
 	n := 1 + h%3
 	h /= 3
 	var out []c02Hdr
+	accept := false
 	for j := 0; j < n; j++ {
-		k := h % (2 * len(c02HdrPool))
-		h /= 2 * len(c02HdrPool)
-		if k >= len(c02HdrPool) {
-			k %= 2 // half of the picks: an Access-Control-Request-Method header
+		region := h % 5
+		h /= 5
+		switch {
+		case region <= 1 && !accept:
+			accept = true
+			out = append(out, c02Hdr{"Accept", c02AcceptPool[h%len(c02AcceptPool)].V})
+			h /= len(c02AcceptPool)
+		case region == 2:
+			out = append(out, c02HdrPool[h%2]) // an Access-Control-Request-Method header
+			h /= 2
+		default:
+			out = append(out, c02HdrPool[h%len(c02HdrPool)])
+			h /= len(c02HdrPool)
 		}
-		out = append(out, c02HdrPool[k])
 	}
 	return out
 }
@@ -1611,7 +1732,10 @@ func c02GenHist(r *rand.Rand) c02In {
 		codes := []int{0, 403, 418}
 		for p := 0; p <= 5; p++ {
 			if r.Intn(4) == 0 {
-				d := c02Deny{Err: c02Err{codes[r.Intn(len(codes))], 31 + p}}
+				d := c02Deny{Err: c02Err{Code: codes[r.Intn(len(codes))], Msg: 31 + p}}
+				if r.Intn(3) == 0 {
+					d.Err = c02Err{Code: c02InnerCodes[r.Intn(len(c02InnerCodes))], Msg: 31 + p, Wrap: 1 + r.Intn(3)}
+				}
 				if p > 0 {
 					q := p
 					d.P = &q
